@@ -14,9 +14,11 @@ class Interrupt(BaseException):
 class Recorder:
     """decorator= seam: records (t, y copy, return copy) of every evaluation of the generated function"""
 
-    def __init__(self, fault_at=None, n_skip_args=0):
+    def __init__(self, fault_at=None, n_skip_args=0, nan_from=None):
         self.events = []
         self.fault_at = fault_at
+        self.nan_from = nan_from      # from this evaluation on the RHS returns NaN: an adaptive solver terminates early
+        self.nan_fired = 0
         self.fired = 0
         self.calls = 0
 
@@ -29,6 +31,9 @@ class Recorder:
                 self.fired += 1
                 raise RHSFault(f'injected RHS fault at evaluation {k}')
             r = f(t, y, *a)
+            if self.nan_from is not None and k >= self.nan_from:
+                self.nan_fired += 1
+                return np.full_like(np.asarray(r), np.nan)
             self.events.append((t, yc, np.array(r, copy=True)))
             return r
         spy.__wrapped__ = f
